@@ -170,7 +170,10 @@ def oracle(c):
 ROUTES = ["tract_kw", "tract_kw_over_config", "tract_reconfigured", "tract_attributes", "plss_config", "plss_kw_over_config", "plss_config_assigned",
           "parse_tracts_kw", "parse_tracts_config", "tract_reparsed_same_object",
           # an unrelated setting assigned afterwards leaves the depth settings in force; the list a dry run returns obeys the keywords of that call
-          "tract_unrelated_config_afterwards", "parse_tracts_unrelated_config", "tract_dry_run_return", "unparsed_tract_dry_run_return"]
+          "tract_unrelated_config_afterwards", "parse_tracts_unrelated_config", "tract_dry_run_return", "unparsed_tract_dry_run_return",
+          # the description assigned to an existing (already parsed) object; the alternative constructor; the same component
+          # after a longer description that begins with it was parsed in the same process
+          "tract_desc_reassigned", "from_twprgesec_parse_qq", "from_twprgesec_config_parse_qq", "after_longer_description_in_process"]
 SPELL = ["glyph", "slash", "fracfree", "words", "wrapped"]
 UNRELATED = ["suppress_lot_divs", "clean_qq", "n,w", "suppress_lot_divs.False", "ocr_scrub"]
 
@@ -278,6 +281,21 @@ def oracle_routes(c):
         d = PLSSDesc(full, config="parse_qq," + explicit_text(cfg))
         d.parse_tracts(config=UNRELATED[c["k"] % len(UNRELATED)])
         t = d.tracts[0]
+    elif route == "tract_desc_reassigned":
+        before = "S/2SW/4" if chain[:1] != ["S"] else "NE/4NE/4"
+        t = Tract(before, parse_qq=bool(c["k"] % 2), config=explicit_text(cfg))
+        t.desc = text
+        t.parse()
+    elif route == "from_twprgesec_parse_qq":
+        t = Tract.from_twprgesec(text, 154, 97, 14, config=explicit_text(cfg), parse_qq=True)
+    elif route == "from_twprgesec_config_parse_qq":
+        t = Tract.from_twprgesec(text, "154n", "97w", 14, config="parse_qq," + explicit_text(cfg))
+    elif route == "after_longer_description_in_process":
+        other = "SE/4SE/4" if chain[-1:] != ["SE"] else "NW/4NW/4"
+        first = Tract(f"{text}, {other}" if c["k"] != 1 else f"{text}, {other}, Lot 1", parse_qq=True, config=explicit_text(cfg))
+        if not first.qqs:
+            return [Failure("route_no_pieces", f"{first.desc!r} under {config_text(cfg)!r}: no aliquots", text=first.desc)]
+        t = Tract(text, parse_qq=True, config=explicit_text(cfg))
     elif route in ("tract_dry_run_return", "unparsed_tract_dry_run_return"):
         t = Tract(text, parse_qq=(route == "tract_dry_run_return"), config=explicit_text(prior))
         returned = t.parse(commit=False, **kw)
